@@ -493,6 +493,10 @@ fn gen_streams(master: u64, job: u64, tier: Tier) -> Vec<(Vec<u8>, String)> {
         };
         v.push((raw, c.describe()));
     }
+    if tier == Tier::Thorough && job % 400 == 399 {
+        let (c, _p, raw) = workload::gen_giant_block_stream(&mut rng);
+        v.push((raw, c.describe()));
+    }
     v
 }
 
